@@ -478,8 +478,18 @@ func (c *Ctx) kernelRule(fname string) {
 			return true
 		}
 		nret++
-		if be, ok := rs.Results[0].(*ast.BinaryExpr); ok && be.Op == token.EQL {
-			cmp = be
+		// `return f(a) == f(b)` — possibly as the last conjunct after nil tests of the argument:
+		// `return b != nil && f(a) == f(b)`
+		for _, cj := range conjuncts(rs.Results[0]) {
+			be, ok := cj.(*ast.BinaryExpr)
+			if !ok {
+				continue
+			}
+			if be.Op == token.EQL {
+				if _, isCall := be.X.(*ast.CallExpr); isCall {
+					cmp = be
+				}
+			}
 		}
 		return true
 	})
@@ -511,6 +521,23 @@ func (c *Ctx) kernelRule(fname string) {
 		rs, ok := n.(*ast.ReturnStmt)
 		if !ok || len(rs.Results) != 1 || rs.Results[0] == ast.Expr(cmp) {
 			return true
+		}
+		// the comparison sits in this return as a conjunct next to nil tests of the argument only
+		if cjs := conjuncts(rs.Results[0]); len(cjs) > 1 {
+			has, onlyNil := false, true
+			for _, cj := range cjs {
+				if cj == ast.Expr(cmp) {
+					has = true
+					continue
+				}
+				be, isB := cj.(*ast.BinaryExpr)
+				if !isB || be.Op != token.NEQ || !isNilIdent(d.pkg, be.Y) || objOf(d.pkg, be.X) != par {
+					onlyNil = false
+				}
+			}
+			if has && onlyNil {
+				return true
+			}
 		}
 		v, isConst := constOf(d.pkg, rs.Results[0])
 		facts := pathFacts(d.pkg, d.fd.Body, rs, par)
